@@ -26,7 +26,7 @@ class C09(Prop):
                 "NV.C09.slot_search_as_modelled", "NV.C09.process_io_as_modelled", "NV.C09.remove_tests_as_modelled",
                 "NV.C09.apply_sites_as_modelled", "NV.C09.no_new_unprotected_apply_site", "NV.C09.guards_present", "NV.C09.apply_touch_as_modelled",
                 "NV.C09.input_to_call_as_modelled", "NV.C09.set_call_as_modelled", "NV.C09.prompt_as_modelled",
-                "NV.C09.command_branches_as_modelled", "NV.C09.preload_as_modelled", "NV.C09.error_handler_stmts_as_modelled",
+                "NV.C09.command_branches_as_modelled", "NV.C09.preload_as_modelled", "NV.C09.reset_object_as_modelled", "NV.C09.set_snoop_as_modelled", "NV.C09.error_handler_stmts_as_modelled",
                 "NV.C09.batch_any_order_good", "NV.C09.stale_event_skipped", "NV.C09.freed_record_events_are_stale",
                 "NV.C09.accept_serial_fresh", "NV.C09.applyAction_resolved", "NV.C09.pending_entry_older_than_any_accept",
                 "NV.C09.abandoned_suffix", "NV.C09.abandoned_nil_of_ok", "NV.C09.findConn_id",
@@ -77,11 +77,11 @@ class C09(Prop):
                   "the C source on every run) and by running the real backend() loop (loopback TCP clients, console pipe, "
                   "virtual time, events of one poll delivered in scripted order by the interposed poller, scripted failing "
                   "tasks, master error_handler in three behaviours) on the same histories: traces must be identical; the "
-                  "Lean specification oracle (14 clauses, incl. `isolation`: a line at the head of a user's input is served within "
+                  "Lean specification oracle (15 clauses, incl. `sweep`: reset() / clean_up() of an object at most once per tick, and `isolation`: a line at the head of a user's input is served within "
                   "users + 2 iterations whatever the other users' commands do) judges every implementation trace.")
     level_note = ("trusted: Lean kernel; extract.py and the regex translator in props/c09.py; the correspondence harness "
                   "(differential; only generated histories); the oracle clauses heartbeats / commands / callouts / leak / "
-                  "refs / unexpected-shutdown / disconnect / hb-schedule / turns / isolation are judged on every trace but not proved "
+                  "refs / unexpected-shutdown / disconnect / hb-schedule / turns / isolation / sweep are judged on every trace but not proved "
                   "for all histories; memory errors inside arbitrary failing tasks, real signal delivery, the OS, the same "
                   "descriptor twice in one poll, the address-server pipe, LPC sockets, ed, exec(), get_char, the output side of "
                   "snoop (the scripted receive_snoop() ignores ordinary output), validity of the snoop_by / snoop_on pointers are not "
@@ -311,6 +311,18 @@ class C09(Prop):
             ("return", r"return;"), ("epilog", r"apply_master_ob \(APPLY_EPILOG"), ("next_file", r"ix\+\+;"),
             ("loop", r"for \(; ix < prefiles->size; ix\+\+\)"), ("preload", r"apply_master_ob \(APPLY_PRELOAD")]) + \
             conds_and_updates(b, ["ix", "prefiles"])
+        b = body_of(comm, r"\nint new_set_snoop \(object_t \* me, object_t \* you\)\s*\{")
+        if b is None:
+            raise X.TieBroken("new_set_snoop()", "cannot locate new_set_snoop()")
+        cmp_sites["snoopStmts"] = conds_and_updates(b, ["snoop_on", "snoop_by", "O_DESTRUCTED"])
+        objc = open(os.path.join(E.REPO, "lib/lpc/object.c")).read()
+        b = body_of(objc, r"\nvoid reset_object \(object_t \* ob\)\s*\{")
+        if b is None:
+            raise X.TieBroken("reset_object()", "cannot locate reset_object()")
+        cmp_sites["resetObjectStmts"] = order(b, [
+            ("next_reset", r"ob->next_reset\s*="), ("apply_reset", r"apply \(APPLY_RESET, ob"),
+            ("clear_will_reset", r"ob->flags &= ~O_WILL_RESET"), ("set_reset_state", r"ob->flags \|= O_RESET_STATE")]) + \
+            conds_and_updates(b, ["__TIME_TO_RESET__"])
         # ---- inventory of the driver-initiated apply sites of the event loop (protected or not) ----
         def apply_sites(fname, src):
             txt = re.sub(r"/\*.*?\*/", lambda m: re.sub(r"[^\n]", " ", m.group(0)), src, flags=re.S)
